@@ -210,14 +210,19 @@ void BinaryFileReader::read_faces(Decoder &reader, const TopoChunkHeader &header
     if (!validate_span(file_header_.n_faces, n_faces_read_, header.span))
         return;
 
-    if (file_header_.topo_type == TopoType::Tetrahedral && header.valence != 3) {
+    auto valence_ok = [&](uint32_t required) {
+        if (header.valence != 0) return header.valence == required;
+        for (auto v: _valences) { if (v != required) return false; }
+        return true;
+    };
+    if (file_header_.topo_type == TopoType::Tetrahedral && !valence_ok(3)) {
         state_ = ReadState::ErrorInvalidTopoType;
-        error_msg_ = "TOPO chunk: Faces of tetrahedral meshes must have a fixed valence of 3";
+        error_msg_ = "TOPO chunk: Faces of tetrahedral meshes must have valence 3";
         return;
     }
-    if (file_header_.topo_type == TopoType::Hexahedral && header.valence != 4) {
+    if (file_header_.topo_type == TopoType::Hexahedral && !valence_ok(4)) {
         state_ = ReadState::ErrorInvalidTopoType;
-        error_msg_ = "TOPO chunk: Faces of hexahedral meshes must have a fixed valence of 4";
+        error_msg_ = "TOPO chunk: Faces of hexahedral meshes must have valence 4";
         return;
     }
     assert(header.valence != 0 || _valences.size() == header.span.count);
@@ -259,15 +264,20 @@ void BinaryFileReader::read_cells(Decoder &reader, const TopoChunkHeader &header
     if (!validate_span(file_header_.n_cells, n_cells_read_, header.span))
         return;
 
-    if (file_header_.topo_type == TopoType::Tetrahedral && header.valence != 4) {
+    auto valence_ok = [&](uint32_t required) {
+        if (header.valence != 0) return header.valence == required;
+        for (auto v: _valences) { if (v != required) return false; }
+        return true;
+    };
+    if (file_header_.topo_type == TopoType::Tetrahedral && !valence_ok(4)) {
         state_ = ReadState::ErrorInvalidTopoType;
-        error_msg_ = "TOPO chunk: Cells of tetrahedral meshes must have a fixed valence of 4";
+        error_msg_ = "TOPO chunk: Cells of tetrahedral meshes must have valence 4";
         return;
     }
 
-    if (file_header_.topo_type == TopoType::Hexahedral && header.valence != 6) {
+    if (file_header_.topo_type == TopoType::Hexahedral && !valence_ok(6)) {
         state_ = ReadState::ErrorInvalidTopoType;
-        error_msg_ = "TOPO chunk: Cells of hexahedral meshes must have a fixed valence of 6";
+        error_msg_ = "TOPO chunk: Cells of hexahedral meshes must have valence 6";
         return;
     }
 
